@@ -267,11 +267,13 @@ def run(tier, seed):
             total.merge(common.run_shards(shard_sampled, descs))
             # lopsided merges (ratios beyond 1024, 4096 and 65536) and huge sample sizes by self-merging
             lop = []
-            ratios = [(1100, 1), (4500, 1), (9000, 2), (70000, 1)] if tier == 'quick' else \
+            ratios = [(1100, 1), (4500, 1), (9000, 2), (70000, 1), (140000, 2)] if tier == 'quick' else \
                 [(1100, 1), (2100, 2), (4500, 1), (9000, 2), (13000, 3), (70000, 1), (140000, 2), (300000, 1)]
             for nbig, nsmall in ratios:
                 for typ in (TYPES if nbig <= 9000 or variant == 'release' else ['Mean', 'Kurtosis']):
                     if nbig >= 70000 and typ in ('M8', 'M10', 'M5') and tier == 'quick':
+                        continue
+                    if nbig >= 140000 and tier == 'quick' and typ not in ('Mean', 'Variance', 'Kurtosis'):
                         continue
                     lop.append((nbig, nsmall, typ))
             lop.sort(key=lambda w: -w[0])
